@@ -9,12 +9,25 @@ Classes == {m.cls : m \in WriteMenu}
 Rep(c) == CHOOSE m \in WriteMenu : m.cls = c /\ m.ws[1].v # <<>>
 \* every step also records the spec's own successor state: a generated behaviour doubles as a trace that the trace form must accept
 \* (the canary of the check does not depend on SPSDK)
-GSetValues == \E c \in Classes : /\ SetValues(Rep(c).ws)
-                                  /\ hist' = Append(hist, [a |-> "SetValues", cls |-> c, seal |-> FALSE, w |-> Rep(c).ws, post |-> bits', size |-> 0])
+GenClasses == Classes \ {"sizefld", "ctrl"}
+GSetValues == \E c \in GenClasses : /\ SetValues(Rep(c).ws)
+                                     /\ hist' = Append(hist, [a |-> "SetValues", cls |-> c, sz |-> "", lv |-> "", seal |-> FALSE, w |-> Rep(c).ws, post |-> bits', size |-> 0])
+\* writes to the control bit-fields and the size bit-field are generated per CASE (size class, control level) of CfgArea.tla: every such
+\* step flips the control level (the configuration selects FEWER or MORE registers than the object had) and announces a size of every
+\* class for the registers that exist afterwards; the harness concretises the case on every real layout
+GCaseWs(s, ws) == /\ SetValues(ws)
+                  /\ hist' = Append(hist, [a |-> "SetValues", cls |-> "sizectrl", sz |-> s, lv |-> CtrlLevel(L, bits'), seal |-> FALSE, w |-> ws, post |-> bits', size |-> 0])
+GCaseSize(s, pre, S) == GCaseWs(s, IF s = "-" THEN pre ELSE Append(pre, SizeWrite(IF s = "eq" THEN S ELSE IF s = "lt" THEN S - 1 ELSE S + 1)))
+GCasePre(s, pre) == GCaseSize(s, pre, IF s = "-" THEN 0 ELSE ExpSize(L, Apply(L, bits, pre)))
+GCaseLv(s, lv) == IF ~L.hascond THEN s # "-" /\ GCasePre(s, <<>>)
+                  ELSE LET cws == {cw \in CtrlWrites : CtrlLevel(L, Apply(L, bits, <<cw>>)) = lv} IN cws # {} /\ GCasePre(s, <<CHOOSE cw \in cws : TRUE>>)
+GSizeCtrl == \E s \in (IF L.sizefld.r = 0 THEN {"-"} ELSE ToSet(SizeClasses)) : GCaseLv(s, IF CtrlLevel(L, bits) = "max" THEN "min" ELSE "max")
 GOther == /\ (NewObject \/ Template \/ GetConfig \/ LoadConfig \/ DoExport \/ Parse)
-          /\ hist' = Append(hist, [a |-> act'.a, cls |-> "", seal |-> (act'.a = "Export" /\ act'.seal), w |-> <<>>,
+          /\ hist' = Append(hist, [a |-> act'.a, cls |-> "", sz |-> "", lv |-> "", seal |-> (act'.a = "Export" /\ act'.seal), w |-> <<>>,
                                     post |-> IF act'.a = "Export" THEN bin'.b ELSE bits', size |-> ExpSize(L, bits')])
+\* the case space itself is printed once: the canonical schedule of the harness runs every case on every area that has it
+ASSUME PrintT(ToJson([cases |-> SizeCtrlCases]))
 GInit == Init /\ hist = <<>> /\ done = FALSE /\ steps = 0
-GNext == \/ Len(hist) < Depth /\ (GSetValues \/ GOther) /\ UNCHANGED <<done, steps>>
-         \/ Len(hist) = Depth /\ ~done /\ done' = TRUE /\ PrintT(ToJson([lay |-> lay, hist |-> hist])) /\ UNCHANGED <<vars, hist, steps>>
+GNext == \/ Len(hist) < Depth /\ (GSetValues \/ GSizeCtrl \/ GOther) /\ UNCHANGED <<done, steps>>
+         \/ Len(hist) = Depth /\ ~done /\ done' = TRUE /\ PrintT(ToJson([lay |-> lay, hist |-> hist, fresh |-> Fresh(L)])) /\ UNCHANGED <<vars, hist, steps>>
 =============================================================================
